@@ -1,6 +1,291 @@
-"""placeholder native replayer (state injection) - filled in below"""
-import json, sys
-rec = json.load(open(sys.argv[1]))
-rec["replayed"] = False
-rec["replay_note"] = "native replayer not available for this unit"
-json.dump(rec, open(sys.argv[1], "w"), indent=1)
+"""Native replay of a verifier counter-model against the REAL code (runs under /venv/bin/python with
+PYTHONPATH=<repo>/src).  usage: replay.py <replay.json>
+
+The counter-model is a state + a call.  The replayer builds a real store object, injects the model's entry state
+(real simpy events, real item objects), makes the model's active process current, performs the real call, and then
+  (a) compares the real exit state / result / exception with the exit state the verifier predicted for this input
+      (a match means the verifier's path is the real behaviour, so the clause it refuted is false natively), and
+  (b) evaluates the class invariant natively on the real exit state.
+`replayed` is set when (a) matches or (b) finds a violation or the call raised an exception the contract forbids.
+"""
+import contextlib
+import io
+import json
+import sys
+import traceback
+
+CLASSES = {
+    "P": ("factorysimpy.base.reservable_priority_req_store", "ReservablePriorityReqStore"),
+    "R": ("factorysimpy.base.reservable_req_store", "ReservableReqStore"),
+    "F": ("factorysimpy.base.reservable_priority_req_filter_store", "ReservablePriorityReqFilterStore"),
+    "B": ("factorysimpy.base.buffer_store", "BufferStore"),
+    "L": ("factorysimpy.base.fleet_store", "FleetStore"),
+    "S": ("factorysimpy.base.slotted_belt_store", "BeltStore"),
+    "C": ("factorysimpy.base.belt_store", "BeltStore"),
+}
+EVLISTS = ("reserve_put_queue", "reservations_put", "reserve_get_queue", "reservations_get", "reserved_events")
+
+
+class Obj:
+    def __init__(self, kind, ident):
+        self.kind, self.ident = kind, ident
+        self.id = "%s%s" % (kind, ident)
+
+    def __repr__(self):
+        return "<%s %s>" % (self.kind, self.ident)
+
+
+def main(path):
+    rec = json.load(open(path))
+    rec["replayed"] = False
+    try:
+        do_replay(rec)
+    except Exception as e:
+        rec["replay_note"] = "replayer error: %r" % (e,)
+        rec["replay_trace"] = traceback.format_exc()[-1200:]
+    json.dump(rec, open(path, "w"), indent=1)
+
+
+def do_replay(rec):
+    unit = rec["unit"]
+    lib, rest = unit.split(":", 1)
+    cls, fn = rest.split(".", 1)
+    model = rec.get("model") or {}
+    if lib != "stores" or cls not in CLASSES or not model.get("entry"):
+        rec["replay_note"] = "no native replayer for this unit"
+        return
+    if fn in ("move_to_ready_items", "fleet_activation_process", "_add_trigger_event", "__init__"):
+        rec["replay_note"] = "process bodies / constructors are not replayed by state injection"
+        return
+    import importlib
+    import simpy
+    modname, cname = CLASSES[cls]
+    K = getattr(importlib.import_module(modname), cname)
+    entry = model["entry"]
+    F = entry["fields"]
+    heap = entry.get("heap", {})
+    now = num(entry.get("now", 0))
+    env = simpy.Environment(initial_time=now)
+    cap = F.get("capacity")
+    cap = float("inf") if cap == "inf" else cap
+    out = io.StringIO()
+    with contextlib.redirect_stdout(out):
+        kwargs = {}
+        if cls in ("B",):
+            kwargs["mode"] = F.get("mode") if F.get("mode") in ("FIFO", "LIFO") else "LIFO"
+        if cls == "L":
+            kwargs.update(delay=num(F.get("delay", 1)), transit_delay=num(F.get("transit_delay", 0)))
+        if cls == "F":
+            kwargs["trigger_delay"] = num(F.get("trigger_delay", 0))
+        st = K(env, capacity=cap, **kwargs)
+    events, items, procs = {}, {}, {}
+
+    def ev(i):
+        if i not in events:
+            e = simpy.Event(env)
+            e.resourcename = st
+            rp = heap.get("requesting_process", {}).get(str(i))
+            e.requesting_process = proc(int(rp)) if rp is not None and rp.lstrip("-").isdigit() else None
+            for attr in ("priority_to_put", "priority_to_get"):
+                v = heap.get(attr, {}).get(str(i))
+                setattr(e, attr, num(v) if v is not None else 0)
+            if heap.get("triggered", {}).get(str(i)) == "True":
+                e._ok = True
+                e._value = None       # triggered (value set) without scheduling anything
+            events[i] = e
+        return events[i]
+
+    def item(i):
+        if i not in items:
+            items[i] = Obj("item", i)
+        return items[i]
+
+    def proc(i):
+        if i not in procs:
+            procs[i] = Obj("proc", i)
+        return procs[i]
+
+    def conv(name, v):
+        if name in EVLISTS:
+            return [ev(x) for x in v]
+        if name == "items":
+            return [(item(x[0]), num(x[1])) if isinstance(x, list) else item(x) for x in v]
+        if name in ("ready_items", "reserved_items"):
+            return [item(x) for x in v]
+        return v
+    for name, v in F.items():
+        if isinstance(v, list):
+            setattr(st, name, conv(name, v))
+        elif name == "capacity":
+            pass
+        elif name == "activate_fleet":
+            st.activate_fleet = ev(v)
+        elif name == "mode":
+            pass
+        elif isinstance(v, (int, float, str)) and not isinstance(v, bool):
+            try:
+                setattr(st, name, num(v))
+            except Exception:
+                pass
+    env._active_proc = proc(entry.get("active_process", 0))
+    args = []
+    for k, v in (model.get("args") or {}).items():
+        if k in ("put_event", "get_event", "event", "put_event_to_cancel", "get_event_to_cancel"):
+            args.append(ev(v) if v is not None else None)
+        elif k == "item":
+            args.append((item(v[0]), num(v[1])) if isinstance(v, list) else item(v))
+        elif k == "priority":
+            args.append(num(v))
+        elif k == "filter":
+            args.append(None)
+    native = {}
+    pre_viol = set(x.split(":")[0] for x in native_invariant(st, cls, events))
+    with contextlib.redirect_stdout(out):
+        try:
+            res = getattr(st, fn)(*args)
+            native["result"] = describe(res, events, items)
+        except Exception as e:
+            native["exception"] = type(e).__name__
+            native["exception_text"] = str(e)[:200]
+    next_id = entry.get("next_id", 10 ** 6)
+    fresh = [0]
+
+    def ident(o):
+        for d in (events, items):
+            for k, v in d.items():
+                if v is o:
+                    return k
+        if isinstance(o, simpy.Event):
+            events[next_id + fresh[0]] = o
+            fresh[0] += 1
+            return next_id + fresh[0] - 1
+        return repr(o)
+    post = {}
+    for name in list(F) + ["ready_items", "reserved_items"]:
+        if not hasattr(st, name):
+            continue
+        v = getattr(st, name)
+        if isinstance(v, list):
+            post[name] = [[ident(x[0]), x[1]] if isinstance(x, tuple) else ident(x) for x in v]
+        elif isinstance(v, (int, float)):
+            post[name] = v
+    native["exit_fields"] = post
+    native["triggered"] = {str(k): bool(e.triggered) for k, e in events.items()}
+    rec["native"] = native
+    # (a) prediction
+    pred = (model.get("exit") or {}).get("fields") or {}
+    mism = []
+    for name, v in pred.items():
+        if isinstance(v, list) and name in post:
+            if norm(v) != norm(post[name]):
+                mism.append({"field": name, "predicted": v, "native": post[name]})
+    kind = rec.get("kind")
+    pred_exc = "raise-" in rec.get("obligation", "") or ".no-" in rec.get("obligation", "")
+    rec["prediction_matches_native_exit_state"] = (not mism)
+    rec["prediction_mismatches"] = mism[:6]
+    # (b) native invariant
+    viol = [x for x in native_invariant(st, cls, events) if x.split(":")[0] not in pre_viol]
+    rec["native_invariant_violations"] = viol
+    rec["native_invariant_already_false_at_entry"] = sorted(pre_viol)
+    obl = rec.get("obligation", "")
+    if ".no-" in obl and "@L" in obl:
+        want = obl.split(".no-")[1].split("@")[0]
+        if native.get("exception") == want:
+            rec["replayed"] = True
+            rec["replay_note"] = "the real call raised %s, which the contract forbids for this input" % want
+            return
+    if "unchanged" in obl and native.get("exception"):
+        pre = {k: norm(v) for k, v in F.items() if isinstance(v, list)}
+        chg = [k for k in pre if k in post and norm(post[k]) != pre[k]]
+        if chg:
+            rec["replayed"] = True
+            rec["replay_note"] = "the real call raised %s but changed %s" % (native["exception"], chg)
+            return
+    if viol:
+        rec["replayed"] = True
+        rec["replay_note"] = "the real call leaves the store in a state violating: %s" % "; ".join(viol[:4])
+        return
+    if not mism and not (native.get("exception") and not pred_exc):
+        rec["replayed"] = True
+        rec["replay_note"] = ("the real call reaches exactly the exit state predicted by the verifier for this input; "
+                              "the refuted clause is false in that state")
+        return
+    rec["replay_note"] = "native run did not reproduce the predicted exit state"
+
+
+def norm(v):
+    return json.loads(json.dumps(v))
+
+
+def num(v):
+    if isinstance(v, (int, float)):
+        return v
+    if v is None:
+        return 0
+    s = str(v)
+    try:
+        if "/" in s:
+            a, b = s.split("/")
+            return float(a) / float(b)
+        return float(s) if ("." in s or "e" in s) else int(s)
+    except Exception:
+        return 0
+
+
+def describe(res, events, items):
+    for d in (events, items):
+        for k, v in d.items():
+            if v is res:
+                return k
+    if isinstance(res, tuple):
+        return [describe(x, events, items) for x in res]
+    return res if isinstance(res, (int, float, bool, str, type(None))) else repr(res)
+
+
+def native_invariant(st, cls, events):
+    """the class invariant of contracts/stores.py, evaluated on the real object"""
+    v = []
+    held = len(st.items) + (len(st.ready_items) if hasattr(st, "ready_items") else 0)
+    avail = len(st.ready_items) if hasattr(st, "ready_items") else len(st.items)
+    if len(st.reservations_put) + held > st.capacity:
+        v.append("I-cap: %d reservations + %d items > capacity %s" % (len(st.reservations_put), held, st.capacity))
+    if list(st.reserved_events) != list(st.reservations_get):
+        v.append("I-sync: reserved_events != reservations_get")
+    if len(st.reservations_get) > avail:
+        v.append("I-bind.count: more granted retrievals than available items")
+    if hasattr(st, "reserved_items"):
+        if len(st.reserved_items) != len(st.reserved_events):
+            v.append("I-bind.len")
+        ids = [id(x) for x in st.reserved_items]
+        if len(set(ids)) != len(ids):
+            v.append("I-bind.distinct: one item bound to two reservations")
+        rd = [id(x) for x in st.ready_items]
+        if any(i not in rd for i in ids):
+            v.append("I-bind.member: a reserved item is not in ready_items")
+        if getattr(st, "mode", "FIFO") == "FIFO" and ids != rd[:len(ids)]:
+            v.append("I-bind.fifo: reserved items are not the oldest ready items in order")
+    allev = []
+    for nm in ("reserve_put_queue", "reservations_put", "reserve_get_queue", "reservations_get"):
+        allev += [id(e) for e in getattr(st, nm)]
+    if len(set(allev)) != len(allev):
+        v.append("I-nodup: an event occurs twice in the reservation lists")
+    if any(e.triggered for e in st.reserve_put_queue) or any(e.triggered for e in st.reserve_get_queue):
+        v.append("I-trig: a waiting request is triggered")
+    if any(not e.triggered for e in st.reservations_put) or any(not e.triggered for e in st.reservations_get):
+        v.append("I-trig: a granted request is not triggered")
+    if st.reserve_put_queue and len(st.reservations_put) + held < st.capacity and cls in ("P", "R", "F", "B", "L"):
+        v.append("I-nlw-put: a space request waits although space is free")
+    if st.reserve_get_queue and len(st.reservations_get) < avail and cls in ("P", "R", "B", "L"):
+        v.append("I-nlw-get: a retrieval request waits although an un-reserved item is available")
+    for nm, attr in (("reserve_put_queue", "priority_to_put"), ("reserve_get_queue", "priority_to_get")):
+        q = getattr(st, nm)
+        ps = [getattr(e, attr, 0) for e in q]
+        if ps != sorted(ps):
+            v.append("I-ord: %s is not sorted by priority" % nm)
+    if hasattr(st, "_last_num_items") and st._last_num_items != held:
+        v.append("I-avg.level: recorded level %s != true occupancy %s" % (st._last_num_items, held))
+    return v
+
+
+if __name__ == "__main__":
+    main(sys.argv[1])
